@@ -21,6 +21,7 @@ var shapes = []shapeSpec{
 	{"s7", "cap", "/s7", "handler, closure middleware and start-up helper closure write to arrays/scalars captured by value (use)"},
 	{"s8", "obj", "/s8", "one object per request; its methods run capture-less closures / arrow fns / callbacks (array_map, usort, array_filter, array_reduce) that use $this"},
 	{"s9", "boot", "/s9", "by-value copies of boot-time arrays (service object properties, static properties, globals captured by value) that were iterated by reference at boot; writes to the copies"},
+	{"s10", "rec", "/s10", "recursion (function, mutual, method, static method, self-calling closure) whose depth is a request parameter; the rendezvous is at the innermost frame"},
 }
 
 // round is one load case: K requests with distinct parameters served at the same time by
@@ -35,7 +36,7 @@ type round struct {
 
 var inflightChoices = []int{2, 2, 3, 4, 6, 8, 12, 16, 24, 32, 48, 64}
 
-func genRound(r *rand.Rand, id int, superglobals bool) round {
+func genRound(r *rand.Rand, id int, superglobals, deepMethods bool) round {
 	k := inflightChoices[r.Intn(len(inflightChoices))]
 	if r.Intn(4) == 0 {
 		k = 2 + r.Intn(63)
@@ -59,7 +60,20 @@ func genRound(r *rand.Rand, id int, superglobals bool) round {
 		if superglobals && r.Intn(2) == 0 {
 			extra = append(extra, [2]string{"X-Sg", "1"})
 		}
-		rd.Reqs = append(rd.Reqs, stdRequest(sh.Server, sh.Name, sh.Route, method, ownerOf(id, i), r.Intn(6), extra...))
+		depth := -1
+		if sh.Name == "s10" {
+			kind := recKinds[r.Intn(len(recKinds))]
+			depth = r.Intn(61)
+			if countsAsMethod(kind) && !deepMethods {
+				depth = r.Intn(5) // open finding calldepth-shared: keep the sum of method frames of a round far below 500
+			}
+			extra = append(extra, [2]string{"X-Rec", kind}, [2]string{"X-Gate-Name", "none"})
+		}
+		q := stdRequest(sh.Server, sh.Name, sh.Route, method, ownerOf(id, i), r.Intn(6), extra...)
+		if depth >= 0 {
+			q.Target += fmt.Sprintf("&d=%d", depth)
+		}
+		rd.Reqs = append(rd.Reqs, q)
 	}
 	rd.Order = r.Perm(k)
 	return rd
